@@ -297,3 +297,15 @@ theorem MarshalBuffer_eq (oracle : Nat → Bytes) (encode : Buf → Res (Buf × 
   simp only []
 
 end Pico.GoTie.E
+
+namespace Pico.GoTie.E
+open Pico Pico.EncLow
+
+/-- `NewEncoderBuffer(buffer)`: the encoder starts on `buffer[:0]` -/
+theorem NewEncoderBuffer_eq (oracle : Nat → Bytes) (buffer : Bytes) :
+    GoSrc.Encoder.NewEncoderBuffer oracle buffer = .ok ⟨[], buffer⟩ := rfl
+
+/-- `NewEncoder()`: empty logical bytes (its 64 bytes of fresh capacity are zeros: a particular stale tail) -/
+theorem NewEncoder_eq (oracle : Nat → Bytes) : GoSrc.Encoder.NewEncoder oracle = .ok ⟨[], []⟩ := rfl
+
+end Pico.GoTie.E
